@@ -150,7 +150,10 @@ struct Ctx {
   void count(int i, uint64_t d = 1) { counters[i] += d; }
   void sample(const std::string& text) {
     if (replay && want_sample) {
-      printf("REPLAY-CASE %s\n", jstr_fwd(text).c_str());
+      if (text.size() > 4000)
+        printf("REPLAY-CASE %s (first 4000 of %zu bytes)\n", jstr_fwd(text.substr(0, 4000)).c_str(), text.size());
+      else
+        printf("REPLAY-CASE %s\n", jstr_fwd(text).c_str());
       fflush(stdout);
       want_sample = false;
       return;
